@@ -20,6 +20,12 @@ from .tables import Tables
 
 ORACLE_DIR = Path(__file__).resolve().parent.parent / "oracle"
 
+
+def _no_self_calls_unroll(node, seq):
+    """Unroll only small constant loops whose body does not call back into the instance (name-building loops)."""
+    return seq is not None and len(seq) <= 8 and not any(
+        isinstance(n, ast.Call) and isinstance(n.func, ast.Attribute) and isinstance(n.func.value, ast.Name) and n.func.value.id == "self" for b in node.body for n in ast.walk(b))
+
 PUBLIC_ANCHORS = [
     "rtcmreader.RTCMReader.__init__", "rtcmreader.RTCMReader.read", "rtcmreader.RTCMReader.parse",
     "rtcmreader.RTCMReader.__next__", "rtcmreader.RTCMReader.__iter__",
@@ -387,56 +393,82 @@ class Engine:
     # ------------------------------------------------------------------ decoder facts used by table rules
     @cached_property
     def decoder_facts(self) -> dict:
-        """Facts extracted from the decoder's code (not hard-coded):
-        var_width: field -> (counter attr, counter attr)  from `if anam == K: asiz = getattr(self,A) * getattr(self,B)`
-        derived_counters: attr name -> defining field      from `setattr(self, CONST, ...)` under `anam == K` guards
-        count_plus_one: set of counter names               from `if anam == K: gsiz += 1` in the group routine
+        """Facts about the decoder obtained by *specialising* its routines (not by matching source shapes, so that helper
+        extraction, table-driven rewrites and restructured conditionals do not matter):
+        derived_counters: attr name -> defining field   : specialising the single-field routine on field K stores a constant-named attribute other than K
+        var_width:        field -> (counter, counter)   : the returned offset of the routine specialised on K is offset + getattr(A)*getattr(B)
+        count_plus_one:   set of counter names          : the group routine specialised on designator NAME iterates range(getattr(NAME) + 1)
         """
+        from .domains import to_poly
+        from .symeval import is_const, show
+        from .tables import Poly
+
         facts = {"var_width": {}, "derived_counters": {}, "count_plus_one": set(), "sites": []}
         sfr = self.repo.func(self.single_field_routine)
-        mod = sfr.module
-        anam = sfr.params[1] if len(sfr.params) > 1 else None
-        parents = self.repo.parents
+        if len(sfr.params) < 4:
+            raise AnalysisError(f"single-field routine {sfr.qualname} has an unexpected signature")
+        anam, offp = sfr.params[1], ("param", sfr.params[2])
+        fields = self.ce.value("rtcmtypes_core", "RTCM_DATA_FIELDS")
+        cache = self.__dict__.setdefault("_spec_cache", {})
 
-        def name_guards(node):
-            """Set of string constants K such that node is nested in the true side of `anam == K`
-            (innermost such guard wins) within the function."""
-            keys = []
-            child, p = node, parents.get(id(node))
-            while p is not None and p is not sfr.node and not isinstance(p, ast.FunctionDef):
-                if isinstance(p, ast.If) and any(child is x for x in p.body):
-                    k = self._eq_const(p.test, anam, mod)
-                    if k is not None:
-                        keys.append(k)
-                child, p = p, parents.get(id(p))
-            return keys
+        def getattr_name(t):
+            if t[0] == "call" and t[2] == ("builtin", "getattr") and len(t[3]) >= 2 and t[3][0] == ("self",) and is_const(t[3][1]) and isinstance(t[3][1][1], str):
+                return t[3][1][1]
+            return None
 
-        for n in walk_no_nested(sfr.node):
-            if isinstance(n, ast.Call) and norm(n.func) == "setattr" and len(n.args) == 3:
-                tgt = self.const_of(mod, n.args[1])
-                if isinstance(tgt, str) and isinstance(n.args[0], ast.Name) and n.args[0].id == sfr.params[0]:
-                    ks = name_guards(n)
-                    if ks and isinstance(ks[0], str):
-                        facts["derived_counters"][tgt] = ks[0]
-                        facts["sites"].append((tgt, ks[0], n.lineno))
-            if isinstance(n, ast.Assign) and isinstance(n.value, ast.BinOp) and isinstance(n.value.op, ast.Mult):
-                ks = name_guards(n)
-                ga = [self._getattr_const(x, sfr.params[0], mod) for x in (n.value.left, n.value.right)]
-                if ks and isinstance(ks[0], str) and all(isinstance(g, str) for g in ga):
-                    facts["var_width"][ks[0]] = (ga[0], ga[1])
+        for key in fields:
+            se = cache.get(key)
+            if se is None:
+                se = self.symeval(sfr.qualname, bind={anam: ("const", key)})
+                cache[key] = se
+            for e in se.effects:
+                if e.kind == "call" and e.term[2] == ("builtin", "setattr") and len(e.term[3]) == 3 and e.term[3][0] == ("self",) and is_const(e.term[3][1]):
+                    nm = e.term[3][1][1]
+                    if isinstance(nm, str) and nm != key:
+                        facts["derived_counters"][nm] = key
+                        facts["sites"].append((nm, key, e.line))
+                if e.kind == "return":
+                    names = {}
+
+                    def symn(t, names=names):
+                        if t == offp:
+                            return "off"
+                        g = getattr_name(t)
+                        if g is not None:
+                            names[f"G:{g}"] = g
+                            return f"G:{g}"
+                        return show(t)
+
+                    p = to_poly(e.term, symn)
+                    if p is not None:
+                        rest = p - Poly.sym("off")
+                        if not rest.is_const() and len(rest.t) == 1:
+                            (mono, coef), = rest.t.items()
+                            if coef == 1 and len(mono) == 2 and all(m in names for m in mono):
+                                # keep the order in which the two counters appear in the source term
+                                order = sorted(mono, key=lambda m: show(e.term).find(names[m]))
+                                facts["var_width"][key] = (names[order[0]], names[order[1]])
+        # count_plus_one: specialise the group routine on each named designator of the tables
         grp = self.repo.func(self.group_routine)
-        for n in walk_no_nested(grp.node):
-            if isinstance(n, ast.If):
-                for cmpn in ast.walk(n.test):
-                    if isinstance(cmpn, ast.Compare) and len(cmpn.ops) == 1 and isinstance(cmpn.ops[0], ast.Eq):
-                        for side in (cmpn.left, cmpn.comparators[0]):
-                            v = self.const_of(grp.module, side)
-                            if isinstance(v, str):
-                                for b in n.body:
-                                    if isinstance(b, ast.AugAssign) and isinstance(b.op, ast.Add) and self.const_of(grp.module, b.value) == 1:
-                                        facts["count_plus_one"].add(v)
-                                    if isinstance(b, ast.Assign) and isinstance(b.value, ast.BinOp) and isinstance(b.value.op, ast.Add) and self.const_of(grp.module, b.value.right) == 1:
-                                        facts["count_plus_one"].add(v)
+        T = self.tables
+        seen = set()
+        for _, ident, d, _ in T.definitions():
+            for occ in T.walk(ident, d):
+                if occ.kind == "group" and isinstance(occ.count, str) and occ.count not in seen:
+                    seen.add(occ.count)
+                    base = occ.count.split("+")[0]
+                    se = self.symeval(grp.qualname, bind={grp.params[1]: ("tuple", (("const", occ.count), ("typed", dict, "gdict")))}, unroll=_no_self_calls_unroll)
+                    for e in se.effects:
+                        if e.kind == "call" and e.term[2] == ("builtin", "range") and len(e.term[3]) == 1:
+                            a = e.term[3][0]
+                            if a[0] == "bin" and a[1] == "+" and a[3] == ("const", 1) and a[2][0] == "call" and a[2][2] == ("builtin", "getattr"):
+                                facts["count_plus_one"].add(base)
+                    for info in se.loop_info.values():
+                        it = info.get("iter")
+                        if it is not None and it[0] == "call" and it[2] == ("builtin", "range") and len(it[3]) == 2 and it[3][0] == ("const", 1):
+                            hi = it[3][1]  # range(1, n + 1) idiom: n = hi - 1
+                            if hi[0] == "bin" and hi[1] == "+" and hi[3] == ("const", 2) and hi[2][0] == "call" and hi[2][2] == ("builtin", "getattr"):
+                                facts["count_plus_one"].add(base)
         return facts
 
     def _eq_const(self, test, var, mod):
